@@ -412,6 +412,24 @@ def _emit_extracted(u, target, args, block, subst, emit):
         ft.sig = args['sig']
         fname = args.get('as', fname + '__tail')
         fired.add('tail_after[' + args['tail_after'] + ']')
+    if 'block_in' in args:
+        # closure-body extraction: the generated function's body is the FIRST brace block inside one statement of the real function (found by the statement's leading text),
+        # e.g. the body of the closure in `scope.spawn(move || { .. });`; its free variables become the parameters of the signature the unit states (`sig=`)
+        if 'sig' not in args:
+            raise ExtractError(f'block_in= needs sig= ({relpath}::{fname})')
+        from rx import lex as _lexS, match_close as _mcS
+        pos = find_stmt(ft.body, args['block_in'], int(args.get('stmt_nth', 1)) - 1)
+        if pos is None:
+            raise ExtractError(f'lost anchor: statement `{args["block_in"]}` not found in {relpath}::{fname}')
+        toksS = _lexS(ft.body)
+        kb = next((k for k, t in enumerate(toksS) if t.start >= pos[0] and t.kind == 'p' and t.text == '{'), None)
+        if kb is None:
+            raise ExtractError(f'lost anchor: no block in statement `{args["block_in"]}` of {relpath}::{fname}')
+        cb = _mcS(toksS, kb)
+        ft.body = ft.body[toksS[kb].start:toksS[cb].end]
+        ft.sig = args['sig']
+        fname = args.get('as', fname + '__block')
+        fired.add('block_in[' + args['block_in'] + ']')
     if 'only_stmt' in args:
         # statement extraction: the generated function's body is ONE statement (simple or block: `for .. { }`, `if .. { }`) of the real function, found by its leading text;
         # its free variables become the parameters of the signature the unit states (`sig=`).  `return` inside the statement leaves the generated function, which is what
@@ -453,7 +471,7 @@ def _emit_extracted(u, target, args, block, subst, emit):
         fname = args.get('as', fname + '__stmt')
         fired.add('only_stmt[' + args['only_stmt'] + ']')
     sig = rule_R1_R3(ft.sig, fired)
-    if 'sig' in args and 'only_stmt' not in args and 'tail_after' not in args:
+    if 'sig' in args and 'only_stmt' not in args and 'tail_after' not in args and 'block_in' not in args:
         # stated replacement of the signature (R6: a generic bound on a foreign trait, e.g. `R: std::io::Read`, restated over the unit's stand-in type); the body is the real one
         sig = args['sig']
         fired.add('sig[' + args['sig'] + ']')
